@@ -131,6 +131,79 @@ func genExtFields(repo string) (string, error) {
 	}
 	sb.WriteString(strings.Join(rows, ";\n"))
 	sb.WriteString("\n].\n")
+	// the alternatives of j5.schema.v1.Field (the documented field types) and, per alternative, which of
+	// rules / list_rules / ext / format its message declares: "every rule kind on every field type"
+	fld := (&schema_j5pb.Field{}).ProtoReflect().Descriptor()
+	sb.WriteString("(* j5.schema.v1.Field.type alternatives: (name, message, has rules, has list_rules, has ext, has format) *)\n")
+	sb.WriteString("Definition field_alternatives : list (string * string * bool * bool * bool * bool) := [\n")
+	rows = nil
+	ffs := fld.Fields()
+	for i := 0; i < ffs.Len(); i++ {
+		fd := ffs.Get(i)
+		if fd.Message() == nil {
+			continue
+		}
+		has := func(n string) bool { return fd.Message().Fields().ByName(protoreflect.Name(n)) != nil }
+		rows = append(rows, fmt.Sprintf("  (%s, %s, %s, %s, %s, %s)", coqStr(string(fd.Name())), coqStr(string(fd.Message().FullName())),
+			coqBool(has("rules")), coqBool(has("list_rules")), coqBool(has("ext")), coqBool(has("format"))))
+	}
+	sb.WriteString(strings.Join(rows, ";\n"))
+	sb.WriteString("\n].\n")
+	// the case labels of the type switches on the field schema in buildField and buildProperty
+	arms, err := typeSwitchArms(repo)
+	if err != nil {
+		return "", err
+	}
+	sb.WriteString("(* case labels of the type switches over the field schema: (function, label) *)\n")
+	sb.WriteString("Definition field_switch_arms : list (string * string) := [\n")
+	rows = nil
+	for _, a := range arms {
+		rows = append(rows, fmt.Sprintf("  (%s, %s)", coqStr(a[0]), coqStr(a[1])))
+	}
+	sb.WriteString(strings.Join(rows, ";\n"))
+	sb.WriteString("\n].\n")
 	_ = strconv.Itoa
 	return sb.String(), nil
+}
+
+// typeSwitchArms lists the case labels of the first type switch of buildField and buildProperty.
+func typeSwitchArms(repo string) ([][2]string, error) {
+	tp, err := loadTyped(repo, setExtDirs[0])
+	if err != nil {
+		return nil, err
+	}
+	var out [][2]string
+	for _, f := range tp.files {
+		for _, d := range f.Decls {
+			fd, ok := d.(*ast.FuncDecl)
+			if !ok || fd.Body == nil || (fd.Name.Name != "buildField" && fd.Name.Name != "buildProperty") {
+				continue
+			}
+			done := false
+			ast.Inspect(fd, func(n ast.Node) bool {
+				ts, ok := n.(*ast.TypeSwitchStmt)
+				if !ok || done {
+					return !done
+				}
+				done = true
+				for _, st := range ts.Body.List {
+					cc := st.(*ast.CaseClause)
+					if cc.List == nil {
+						out = append(out, [2]string{fd.Name.Name, "default"})
+					}
+					for _, e := range cc.List {
+						out = append(out, [2]string{fd.Name.Name, tp.typeString(e)})
+					}
+				}
+				return false
+			})
+		}
+	}
+	sort.SliceStable(out, func(i, j int) bool {
+		if out[i][0] != out[j][0] {
+			return out[i][0] < out[j][0]
+		}
+		return out[i][1] < out[j][1]
+	})
+	return out, nil
 }
